@@ -197,6 +197,7 @@ theorem root_slots (n : Nat) (hlow : ∀ j, j < n → CopySpec (copy expectedDis
     | imm t => exact slot_imm hc hr
     | arr dd => obtain ⟨b, hb1, hb2⟩ := hr; exact slot_arr hc hb1 hb2
     | dict items => trivial
+    | deep toks => trivial
   · intro hcl
     obtain ⟨m, ms, k1, k2, k3⟩ := hlab hcl
     obtain ⟨m1, j1, j2⟩ := slot_dict hc k1 k2
@@ -297,6 +298,7 @@ theorem copy_spec : ∀ k, CopySpec (copy expectedDispatch k) := by
                   · obtain ⟨b, hb1, hb2⟩ := hr
                     exact ⟨b, by rw [lookup_setSlot_ne fs1 _ hy2]; exact hb1, e12.get hb2⟩
                 | dict items => trivial
+                | deep toks => trivial
               · intro _
                 refine ⟨h2.length, ms2, lookup_setSlot_self fs1 _ u1, ?_, fun q hq => ?_⟩
                 · have : (h2 ++ [Cell.dict ms2])[h2.length]? = some (Cell.dict ms2) := get_last _ _
